@@ -372,9 +372,12 @@ def seq_replays(pid, exe, res):
         if "# expect: fail" in head:
             continue  # reproducers of known findings are handled above
         n += 1
-        rc, out = replay_once(exe, ["--prop", pid], path)
+        rexe, rargs = exe, ["--prop", pid]
+        if "# engine: qsbr_fault" in head:
+            rexe, rargs = build("qsbr_fault"), []
+        rc, out = replay_once(rexe, rargs, path)
         if rc != 0:
-            if confirm_replay(exe, ["--prop", pid], path):
+            if confirm_replay(rexe, rargs, path):
                 res.violations.append((path, out[-300:]))
     return n
 
